@@ -38,14 +38,14 @@ def call_value_stub(task_specs):
             ran = comp.m.var(f"G.ran_{name}", INT0)
             fin = comp.m.var(f"G.fin_{name}", INT0)
             n1 = comp.m.new_node()
-            comp.emit(ctx, here, n1, updates=[(V(ran), ("padd", V(ran), C(pyint(1))))], visible=True, info=f"task {name} runs", node=node)
+            comp.emit(ctx, here, n1, updates=[(V(ran), ("padd", V(ran), C(pyint(1))))], visible=True, info=f"task {name} runs", node=node, sync="task")
             if behaviour == "block":
                 gate = comp.m.var(f"G.release_{name}", INT0)
                 n2 = comp.m.new_node()
                 comp.emit(ctx, n1, n2, guard=("ne", V(gate), C(INT0)), visible=True, info=f"task {name} released", node=node, sync="await")
                 n1 = n2
             n3 = comp.m.new_node()
-            comp.emit(ctx, n1, n3, updates=[(V(fin), C(pyint(1)))], visible=True, info=f"task {name} ends", node=node)
+            comp.emit(ctx, n1, n3, updates=[(V(fin), C(pyint(1)))], visible=True, info=f"task {name} ends", node=node, sync="task")
             if behaviour == "raise":
                 comp.raise_to(ctx, n3, C(comp.U.exc("TaskError", TaskError)), node)
             else:
@@ -113,6 +113,17 @@ class Scenario:
             ts.entry = dict(ts.entry)
             ts.entry[setup] = ts.end[setup]
         return ts
+
+    def line_gates(self):
+        """(file name, line) pairs at which a real thread must ask for its turn in line-granular replay: every line that
+        carries an operation which is a scheduling point of the model and has no explicit gate of its own"""
+        files = self.model.files
+        out = set()
+        for e in self.ts.edges:
+            for op in e.info:
+                if op[3] == 1 and op[2] not in _replay.EXPLICIT and op[0]:
+                    out.add((files[op[0] // 100000], op[0] % 100000))
+        return out
 
     # ---------------- random simulation (sanity + translator validation traces)
     def simulate(self, rng, max_steps=2000):
@@ -188,7 +199,7 @@ class PoolScenario(Scenario):
         return cons
 
     # ---- replay on the real classes
-    def replay(self, order):
+    def replay(self, order, mode="sync"):
         specs = self.task_specs
         slots = {"_perform_spawn": [t for t in self.model.threads if t.startswith("worker")]}
         backend = self.backend
@@ -201,6 +212,7 @@ class PoolScenario(Scenario):
 
             def mk(name, behaviour):
                 def task(*a, **k):
+                    sched.sync("task")
                     setattr(G, f"ran_{name}", getattr(G, f"ran_{name}") + 1)
                     if behaviour == "block":
                         import time as _t
@@ -209,6 +221,7 @@ class PoolScenario(Scenario):
                         while not getattr(G, f"release_{name}") and _t.time() - t0 < 20:
                             _t.sleep(0.005)
                         sched.sync("await")
+                    sched.sync("task")
                     setattr(G, f"fin_{name}", 1)
                     if behaviour == "raise":
                         raise TaskError(name)
@@ -239,25 +252,12 @@ class PoolScenario(Scenario):
                 a2[k] = "EM" if v == em_code else ("__POOL__" if v == pool_code else v)
             programs[name] = (src2, a2, is_setup)
 
-        # the pool object is created by the setup program as G.pool
-        def env2(sched, G):
-            d = env(sched, G)
-
-            class _Lazy:
-                pass
-
-            d["__POOL__"] = None
-            return d
-
-        # resolve the pool argument lazily: wrap programs so that `pool` is G.pool
+        # the pool object is created by the setup program as G.pool: resolved when the thread starts
         fixed = {}
         for name, (src, args, is_setup) in programs.items():
-            if "pool" in args and args["pool"] == "__POOL__":
-                body = src.replace("def p(pool", "def p(_unused=None", 1).replace("):\n", "):\n    pool = G.pool\n", 1)
-                fixed[name] = (body, {k: v for k, v in args.items() if k != "pool"}, is_setup)
-            else:
-                fixed[name] = (src, args, is_setup)
-        return _replay.run_schedule(fixed, order, env)
+            a3 = {k: ((lambda ns: ns["G"].pool) if v == "__POOL__" else v) for k, v in args.items()}
+            fixed[name] = (src, a3, is_setup)
+        return _replay.run_schedule(fixed, order, env, mode=mode, gates=self.line_gates() if mode == "line" else None)
 
 
 # ----------------------------------------------------------------------------- worker gateway scenarios (C14, C11)
@@ -401,7 +401,7 @@ class GatewayScenario(Scenario):
             comp.emit(ctx, here, n1, updates=[(V(ran), ("padd", V(ran), C(pyint(1)))), (V(comp.m.var(f"G.thr_{name}", INT0)), me_code),
                                               (V(comp.m.var(f"G.ord_{name}", INT0)), V(seq)), (V(seq), ("padd", V(seq), C(pyint(1)))),
                                               (V(act), ("padd", V(act), C(pyint(1)))), (V(ovl), ("ite", ("ne", V(act), C(INT0)), C(pyint(1)), V(ovl)))],
-                      visible=True, info=f"body {name} starts", node=node)
+                      visible=True, info=f"body {name} starts", node=node, sync="task")
             if kind in ("block", "swallow", "sleep", "recv"):
                 pend = comp.m.var("G.sigint_pending", INT0)
                 if kind == "sleep":
@@ -415,7 +415,7 @@ class GatewayScenario(Scenario):
                 comp.emit(ctx, n1, n2, guard=("ne", V(gate), C(INT0)) if can else C(0), updates=ups, visible=True, info=f"body {name} unblocked ({kind})", node=node, sync="await")
                 n1 = n2
             n3 = comp.m.new_node()
-            comp.emit(ctx, n1, n3, updates=[(V(fin), C(pyint(1))), (V(act), ("psub", V(act), C(pyint(1))))], visible=True, info=f"body {name} ends", node=node)
+            comp.emit(ctx, n1, n3, updates=[(V(fin), C(pyint(1))), (V(act), ("psub", V(act), C(pyint(1))))], visible=True, info=f"body {name} ends", node=node, sync="task")
             exc = BODY_KINDS[kind]
             if exc:
                 comp.raise_to(ctx, n3, C(comp.U.exc(exc, TaskError if exc == "TaskError" else None)), node)
@@ -459,7 +459,7 @@ class GatewayScenario(Scenario):
         return cons
 
     # ---- replay on the real classes
-    def replay(self, order):
+    def replay(self, order, mode="sync"):
         import builtins as _bi
 
         bodies = self.bodies
@@ -514,6 +514,7 @@ class GatewayScenario(Scenario):
 
             def mk(name, kind):
                 def body():
+                    sched.sync("task")
                     setattr(G, f"ran_{name}", getattr(G, f"ran_{name}") + 1)
                     setattr(G, f"thr_{name}", 1 + names.index(sched.me()))
                     setattr(G, f"ord_{name}", G.seq)
@@ -538,6 +539,7 @@ class GatewayScenario(Scenario):
                         else:
                             _th.Event().wait()      # never ends
                         sched.sync("await")
+                    sched.sync("task")
                     setattr(G, f"fin_{name}", 1)
                     G.active = G.active - 1
                     exc = BODY_KINDS[kind]
@@ -609,7 +611,8 @@ class GatewayScenario(Scenario):
                     a2[k] = tok[0] if tok else v
             programs[name] = (src2, a2, is_setup)
         try:
-            return _replay.run_schedule(programs, order, env)
+            return _replay.run_schedule(programs, order, env, mode=mode, gates=self.line_gates() if mode == "line" else None,
+                                        ungated_until={"main": "await"} if mode == "line" else None)
         finally:
             if "loads" in state:
                 gb.loads_internal = state["loads"]
